@@ -1214,3 +1214,181 @@ Proof.
     rewrite Hsub. pose proof (decode_rune_prefix (window s1) Hw) as Hp. rewrite Ek in Hp. cbn [snd] in Hp. exact Hp.
 Qed.
 End StreamRune.
+
+(* ---------- UnreadRune: lastRuneSize (lrs) is kept beside the reader ---------- *)
+Section StreamUnrune.
+Variable S : bytes.
+
+(* when lrs >= 0 (a ReadRune was the last consuming operation) either the buffer has since been slid (r = 0, and
+   UnreadRune refuses) or the lrs bytes in front of r are the bytes consumed last *)
+Definition LInv (s : reader) (lrs : Z) : Prop :=
+  0 <= lrs -> rr s = 0 \/ (1 <= lrs <= rr s /\ lrs <= 4 /\ PrefB S s).
+
+(* an operation that consumed nothing leaves the read index and the bytes in front of it alone, or slid *)
+Definition keep (s s' : reader) : Prop :=
+  rr s' = 0 \/ (rr s' = rr s /\ rtotal s' = rtotal s /\ rbuf s' = rbuf s).
+Lemma keep_LInv s s' lrs : LInv s lrs -> keep s s' -> LInv s' lrs.
+Proof.
+  intros HL [H0|(Hr & Ht & Hb)] Hl; [left; exact H0|].
+  destruct (HL Hl) as [Hz|(H1 & H4 & HP)]; [left; lia|]. right. split; [lia|]. split; [exact H4|].
+  unfold PrefB in *. rewrite Hr, Ht, Hb. exact HP.
+Qed.
+Lemma keep_refl s : keep s s.
+Proof. right. repeat split; reflexivity. Qed.
+Lemma keep_set_err s e : keep s (set_err s e).
+Proof. right. repeat split; reflexivity. Qed.
+Lemma keep_zero_trans s s1 s' : rr s1 = 0 -> keep s1 s' -> keep s s'.
+Proof. intros H0 [H|(Hr & _)]; left; lia. Qed.
+
+Lemma rd_read_keep n s d e s' : Inv s -> 0 <= n -> rd_read n s = (d, e, s') -> rtotal s' = rtotal s -> keep s s'.
+Proof.
+  intros HI Hn. unfold rd_read.
+  assert (Hcopy : forall s0, Inv s0 -> rr s0 < rw s0 -> 0 < n -> rd_copy n s0 = (d, e, s') -> rtotal s' = rtotal s0 -> False).
+  { intros s0 H0 Hlt Hn0. unfold rd_copy, buffered. intros E; inversion E; subst; clear E. unfold advance. cbn [rtotal]. lia. }
+  destruct (n =? 0) eqn:En; [intros E; inversion E; subst; intros _; apply keep_set_err|].
+  destruct (rw s =? rr s) eqn:Ew.
+  - destruct (negb (rerr s =? 0)); [intros E; inversion E; subst; intros _; apply keep_set_err|].
+    destruct (rcap s <=? n).
+    + destruct (src_read n (rsrc s)) as [[d0 e0] src']. intros E; inversion E; subst. intros Ht.
+      right. cbn [rr rbuf rtotal] in *. repeat split; try reflexivity. exact Ht.
+    + destruct (fill_inv s HI) as (HI1 & _ & Hr1 & _ & _ & Ht1). destruct (rw (fill s) =? rr (fill s)) eqn:Ef.
+      * intros E; inversion E; subst. intros _. left. unfold set_err. cbn [rr]. exact Hr1.
+      * intros E Ht. exfalso. pose proof HI1 as (_ & _ & Hrw1 & _).
+        apply (Hcopy (fill s) HI1 ltac:(lia) ltac:(lia) E). lia.
+  - intros E Ht. exfalso. pose proof HI as (_ & _ & Hrw & _). apply (Hcopy s HI ltac:(lia) ltac:(lia) E Ht).
+Qed.
+
+Lemma rd_slice_loop_keep : forall fuel delim s d e s', Inv s -> rd_slice_loop fuel delim s = (d, e, s') ->
+  rtotal s' = rtotal s -> keep s s'.
+Proof.
+  induction fuel as [|f IH]; intros delim s d e s' HI; cbn [rd_slice_loop].
+  - intros E; inversion E; subst. intros _. apply keep_refl.
+  - pose proof HI as (Hc & Hr0 & Hrw & Hwc & _).
+    destruct (negb (rerr s =? 0)).
+    + intros E; inversion E; subst; clear E. unfold set_err, advance, buffered. cbn [rtotal rr rbuf]. intros Ht.
+      right. cbn [rtotal rr rw rbuf]. repeat split; try reflexivity; lia.
+    + destruct (fill_inv s HI) as (HI1 & Hcap & Hr1 & _ & _ & Ht1). pose proof HI1 as (Hc1 & _ & Hrw1 & _).
+      destruct (index_byte delim (sub (rbuf (fill s)) (buffered s) (rw (fill s)))) as [i|].
+      * intros E; inversion E; subst; clear E. unfold advance, buffered. cbn [rtotal]. intros Ht. lia.
+      * destruct (rcap (fill s) <=? buffered (fill s)).
+        -- intros E; inversion E; subst; clear E. unfold advance. cbn [rtotal]. intros Ht. lia.
+        -- intros E Ht. apply (keep_zero_trans s (fill s) s' Hr1). apply (IH delim (fill s) d e s' HI1 E). lia.
+Qed.
+Lemma rd_slice_keep delim s d e s' : Inv s -> rd_slice delim s = (d, e, s') -> rtotal s' = rtotal s -> keep s s'.
+Proof.
+  intros HI. unfold rd_slice. destruct (index_byte delim (window s)) as [i|].
+  - intros E; inversion E; subst; clear E. unfold advance. cbn [rtotal]. intros Ht. lia.
+  - apply rd_slice_loop_keep. exact HI.
+Qed.
+
+Lemma rd_peek_loop_keep : forall fuel n s, rr (rd_peek_loop fuel n s) = 0 \/ rd_peek_loop fuel n s = s.
+Proof.
+  induction fuel as [|f IH]; intros n s; cbn [rd_peek_loop]; [right; reflexivity|].
+  destruct ((buffered s <? n) && (rerr s =? 0)); [|right; reflexivity].
+  left. destruct (IH n (fill s)) as [H|H]; [exact H|]. rewrite H. unfold fill.
+  destruct (src_read _ _) as [[? ?] ?]. reflexivity.
+Qed.
+Lemma rd_peek_keep n s d e s' : rd_peek n s = (d, e, s') -> keep s s'.
+Proof.
+  unfold rd_peek. destruct (n <? 0); [intros E; inversion E; subst; apply keep_refl|].
+  destruct (rcap s <? n); [intros E; inversion E; subst; apply keep_refl|].
+  destruct (rd_peek_loop_keep (rfuel s) n s) as [H|H].
+  - destruct (Z.min _ n <? n); intros E; inversion E; subst; left; [unfold set_err; cbn [rr]|]; exact H.
+  - rewrite H. destruct (Z.min _ n <? n); intros E; inversion E; subst; [apply keep_set_err|apply keep_refl].
+Qed.
+
+Lemma nth_sub (l : bytes) a b i : 0 <= a -> 0 <= i < b - a -> b <= blen l ->
+  nth (Z.to_nat i) (sub l a b) 0 = nth (Z.to_nat (a + i)) l 0.
+Proof.
+  intros Ha Hi Hb. unfold sub. rewrite nth_firstn_own by lia. rewrite nth_skipn. f_equal. lia.
+Qed.
+
+(* the k bytes in front of the read index are the k bytes of S in front of the position *)
+Lemma prefB_sub s k : InvS S s -> PrefB S s -> 0 <= k <= rr s ->
+  sub (rbuf s) (rr s - k) (rr s) = sub S (rtotal s - k) (rtotal s).
+Proof.
+  intros (HI & HtS & _) HP Hk. pose proof HI as (Hc & Hr0 & Hrw & Hwc & Ht & Hrt & _).
+  assert (L1 : blen (sub (rbuf s) (rr s - k) (rr s)) = k) by (rewrite sub_length; unfold rcap in *; lia).
+  assert (L2 : blen (sub S (rtotal s - k) (rtotal s)) = k) by (rewrite sub_length; lia).
+  apply (nth_ext _ _ 0 0); [unfold blen in *; lia|].
+  intros j Hj. assert (Hjk : 0 <= Z.of_nat j < k) by (unfold blen in L1; lia).
+  replace j with (Z.to_nat (Z.of_nat j)) by lia.
+  rewrite nth_sub by (unfold rcap in *; lia). rewrite nth_sub by lia.
+  rewrite (HP (rr s - k + Z.of_nat j) ltac:(lia)). f_equal. lia.
+Qed.
+
+Lemma S_back_k t k : 0 <= k <= t -> t <= blen S ->
+  skipn (Z.to_nat (t - k)) S = sub S (t - k) t ++ skipn (Z.to_nat t) S.
+Proof.
+  intros Hk Ht. unfold sub. replace (t - (t - k)) with k by lia.
+  rewrite <- (firstn_skipn (Z.to_nat k) (skipn (Z.to_nat (t - k)) S)) at 1. f_equal.
+  rewrite skipn_skipn'. f_equal. lia.
+Qed.
+
+Lemma rd_unread_rune_S s lrs e s' lrs' : InvS S s -> LInv s lrs -> rd_unread_rune s lrs = (e, s', lrs') ->
+  InvS S s' /\ LInv s' lrs' /\
+  (if e =? 0 then 1 <= rtotal s - rtotal s' <= 4 else rtotal s' = rtotal s).
+Proof.
+  intros HS HL. pose proof HS as (HI & HtS & HR & HP & HLast).
+  pose proof HI as (Hc & Hr0 & Hrw & Hwc & Ht & Hrt & Hl0). unfold rd_unread_rune.
+  destruct ((lrs <? 0) || (rr s =? 0)) eqn:Ec.
+  - intros E; inversion E; subst. split; [exact HS|]. split; [exact HL|]. reflexivity.
+  - intros E; inversion E; subst; clear E.
+    destruct (HL ltac:(lia)) as [Hz|(H1 & H4 & HPB)]; [lia|].
+    assert (Hle : (lrs <=? rtotal s) = true) by lia. rewrite Hle.
+    pose proof (prefB_sub s lrs HS HPB ltac:(lia)) as Hsub.
+    split; [|split; [intros Hneg; lia|cbn [Z.eqb rtotal]; lia]].
+    split.
+    + unfold Inv, rcap in *. cbn [rbuf rr rw rerr rlast rtotal rsrc rpulled]. repeat split; lia.
+    + cbn [rtotal rr rw rlast rbuf rsrc]. split; [lia|]. split; [|split].
+      * rewrite (S_back_k (rtotal s) lrs) by lia. rewrite HR, <- Hsub. unfold R, window. cbn [rbuf rr rw rsrc].
+        rewrite (sub_split (rbuf s) (rr s - lrs) (rr s) (rw s)) by lia. rewrite <- app_assoc. reflexivity.
+      * right. intros i Hi. cbn [rbuf rr rtotal] in *. rewrite (HPB i ltac:(lia)). f_equal. lia.
+      * unfold LastOK. cbn [rlast]. lia.
+Qed.
+
+Lemma rd_rune_L s r size e s' lrs' : InvS S s -> rd_rune s = (r, size, e, s', lrs') -> LInv s' lrs'.
+Proof.
+  intros HS. pose proof HS as (HI & _). unfold rd_rune.
+  destruct (rd_rune_fill_S S (rfuel s) s HS) as [HS1 Ht1].
+  set (s1 := rd_rune_fill (rfuel s) s) in *. pose proof HS1 as (HI1 & _).
+  destruct (rr s1 =? rw s1) eqn:Er; [intros E; inversion E; subst; intros Hneg; lia|].
+  destruct (rune_size_bound s1 HI1 ltac:(lia)) as [Hb H4]. unfold rune_size in Hb, H4.
+  pose proof HI1 as (Hc & Hr0 & Hrw & Hwc & _).
+  destruct (if nth (Z.to_nat (rr s1)) (rbuf s1) 0 <? 128 then (nth (Z.to_nat (rr s1)) (rbuf s1) 0, 1) else decode_rune (window s1))
+    as [r0 k] eqn:Ek. cbn [snd] in Hb, H4.
+  intros E; inversion E; subst; clear E.
+  destruct (window_last S s1 lrs' 0 HS1 ltac:(lia)) as (Hlast & _ & _).
+  destruct (consume_invS S s1 lrs' (last (sub (rbuf s1) (rr s1) (rr s1 + lrs')) 0) HS1 ltac:(lia)
+              ltac:(intros _ _; exact Hlast)) as (_ & _ & HPB).
+  intros _. right. unfold advance in *. cbn [rr] in *. split; [lia|]. split; [exact H4|exact HPB].
+Qed.
+
+Lemma keep_trans s s1 s' : keep s s1 -> keep s1 s' -> keep s s'.
+Proof.
+  intros H1 [H2|(Hr & Ht & Hb)]; [left; exact H2|].
+  destruct H1 as [H1|(Hr1 & Ht1 & Hb1)]; [left; lia|]. right. repeat split; congruence.
+Qed.
+
+Lemma rd_bytes_loop_keep : forall fuel delim s d e s', InvS S s -> rd_bytes_loop fuel delim s = (d, e, s') ->
+  rtotal s' = rtotal s -> keep s s'.
+Proof.
+  induction fuel as [|f IH]; intros delim s d e s' HS; cbn [rd_bytes_loop].
+  - intros E; inversion E; subst. intros _. apply keep_refl.
+  - pose proof HS as (HI & _). destruct (rd_slice delim s) as [[frag e1] s1] eqn:Es.
+    destruct (rd_slice_S S delim s frag e1 s1 HS Es) as (HS1 & [_ Hd2] & _).
+    pose proof (blen_nonneg frag) as Hf.
+    destruct (e1 =? 0); [intros E; inversion E; subst; apply (rd_slice_keep delim s _ _ s' HI Es)|].
+    destruct (negb (e1 =? 3)); [intros E; inversion E; subst; apply (rd_slice_keep delim s _ _ s' HI Es)|].
+    destruct (rd_bytes_loop f delim s1) as [[rest e2] s2] eqn:Er.
+    destruct (rd_bytes_loop_S S f delim s1 rest e2 s2 HS1 Er) as (_ & [_ Hr2]). pose proof (blen_nonneg rest) as Hr.
+    intros E; inversion E; subst. intros Ht.
+    apply (keep_trans s s1 s'); [apply (rd_slice_keep delim s frag e1 s1 HI Es); lia|].
+    apply (IH delim s1 rest _ s' HS1 Er). lia.
+Qed.
+
+Lemma rd_line_empty s z r d pre e s' : rd_slice 10 s = ([], z, r) -> rd_line s = (d, pre, e, s') -> s' = r.
+Proof.
+  intros E0. unfold rd_line. rewrite E0. destruct (z =? 3); simpl; intros E; inversion E; reflexivity.
+Qed.
+End StreamUnrune.
